@@ -309,12 +309,16 @@ func (c *checker) sessionAfterlife(repo string, content []byte, w map[string]any
 		}
 		_, err = w2.Write(junk)
 		steps = append(steps, fmt.Sprintf("Write(%d):%v", len(junk), err == nil))
-		switch rng.IntN(3) {
+		switch rng.IntN(5) {
 		case 0:
 			steps = append(steps, fmt.Sprintf("Close:%v", w2.Close() == nil))
 		case 1:
 			_, err := w2.Commit(ociregistry.Digest(model.Digest(junk)))
 			steps = append(steps, fmt.Sprintf("Commit(junk digest):%v", err == nil))
+		case 2, 3:
+			// the digest the session was committed under once - it is not the digest of what the session holds now
+			_, err := w2.Commit(ociregistry.Digest(dg))
+			steps = append(steps, fmt.Sprintf("Commit(the digest committed before):%v", err == nil))
 		default:
 			steps = append(steps, fmt.Sprintf("Cancel:%v", w2.Cancel() == nil))
 		}
